@@ -473,6 +473,21 @@ class FnFacts:
             if not isinstance(c, ast.Call):
                 continue
             h = resolve_local_call(self.fn, c)
+            if h is None and isinstance(c.func, ast.Name):
+                # NAME = functools.partial(<context manager>, also=...)
+                pv = self.fn.module.const(c.func.id)
+                if isinstance(pv, ast.Call) and (
+                        self.fn.module.resolve(dotted(pv.func) or "") or ""
+                        ) == "functools.partial" and pv.args and \
+                        isinstance(pv.args[0], ast.Name) and \
+                        pv.args[0].id in self.fn.module.functions:
+                    import copy as _cp
+                    h = self.fn.module.functions[pv.args[0].id]
+                    c2 = _cp.copy(c)
+                    c2.func = pv.args[0]
+                    c2.args = list(pv.args[1:]) + list(c.args)
+                    c2.keywords = list(pv.keywords) + list(c.keywords)
+                    c = c2
             if h is None:
                 continue
             decos = [dotted(d) or "" for d in h.node.decorator_list]
@@ -841,8 +856,16 @@ class FnFacts:
     def _is_item_multiple(self, e):
         if isinstance(e, ast.BinOp) and isinstance(e.op, ast.Mult):
             t = norm(e)
-            return ".itemsize" in t or const_int(e.left) in (4, 8) or \
-                const_int(e.right) in (4, 8)
+            if ".itemsize" in t or const_int(e.left) in (4, 8) or \
+                    const_int(e.right) in (4, 8):
+                return True
+            # a factor that is a local bound to <dtype>.itemsize
+            for side in (e.left, e.right):
+                if isinstance(side, ast.Name):
+                    vs = [d.value for d in self.defs.get(side.id, [])
+                          if d.value is not None]
+                    if vs and all(norm(v).endswith(".itemsize") for v in vs):
+                        return True
         return False
 
     # -- D-set --------------------------------------------------------
